@@ -60,7 +60,7 @@ Qed.
 Lemma odd_length_split (p : bytes) : Z.even (zlen p) = false ->
   exists p' lo, p = p' ++ [lo] /\ Z.even (zlen p') = true.
 Proof.
-  intros H. destruct p as [|a p0] using rev_ind; [discriminate|].
+  intros H. induction p as [|a p _] using rev_ind; [discriminate|].
   exists p, a. split; [reflexivity|].
   rewrite zlen_app in H. change (zlen [a]) with 1 in H.
   rewrite Z.even_add in H. simpl in H. destruct (Z.even (zlen p)); [reflexivity|discriminate].
